@@ -37,6 +37,8 @@ def run(ck: Check, repo: Repo) -> None:
         _alignment(ck, repo, fn)
     for modname, q in LOOPS:
         _rollout(ck, repo, repo.fn(modname, q))
+    from ._c17_r5 import run_r5
+    run_r5(ck, repo)
 
 
 # ------------------------------------------------------------------------------------------------ C17.5
